@@ -252,7 +252,8 @@ def summarize(tier: str, seed: int, merged: dict) -> dict:
         "rule": (
             f"all pairs on the dyadic grid D (|D|={len(pair)}), on the seed-phased lattice (|L|={len(phased)}) and on the "
             f"edge set next to 0, 1/2 and 1 ({len(EDGE)} operands down to 2^-53 from 1 and subnormals), all "
-            f"triples on |D3|={len(trip)}, for 7 T-norms and 9 S-norms; scalar, 1-D and 2-D array entry points; a "
+            f"triples on |D3|={len(trip)}, for 7 T-norms and 9 S-norms; scalar, 1-D and 2-D array entry points, the same array as both "
+            "operands, float32 / list / matrix operands, column x row, row x column and scalar (float, 0-d) with array on either side; a "
             "case is non-trivial when all operands are strictly inside (0,1); triples counted by a 1/4096 stride sample"
         ),
         "exhaustive": True,
